@@ -15,29 +15,35 @@ Fixpoint be (w : nat) (x : Z) : bytes :=
 Definition pool_key (e : ste) : bytes :=
   s_chain e ++ s_ext e ++ be 32 (s_fee e) ++ be 8 (Z.of_N (s_id e)).
 
-Fixpoint pool_insert (e : ste) (l : list ste) : list ste :=
-  match l with
-  | [] => [e]
-  | x :: l' =>
-      match bcmp (pool_key e) (pool_key x) with
-      | Lt => e :: l
-      | Eq => e :: l'
-      | Gt => x :: pool_insert e l'
-      end
-  end.
+(* The pool is kept as an unordered list (a set of entries, ids unique per chain); the store's
+   key order only matters when it is iterated, and is recomputed there by sorting on the keys. *)
+Definition same_entry (a b : ste) : bool := beqb (s_chain a) (s_chain b) && N.eqb (s_id a) (s_id b).
+
+Definition pool_insert (e : ste) (l : list ste) : list ste := e :: l.
 
 Definition pool_delete (e : ste) (l : list ste) : list ste :=
-  filter (fun x => negb (beqb (pool_key x) (pool_key e))) l.
+  filter (fun x => negb (same_entry x e)) l.
+
+(* insertion sort, descending by store key (= ReverseIterator order) *)
+Fixpoint insert_desc (e : ste) (l : list ste) : list ste :=
+  match l with
+  | [] => [e]
+  | x :: l' => match bcmp (pool_key e) (pool_key x) with
+               | Lt => x :: insert_desc e l'
+               | _ => e :: l
+               end
+  end.
+Definition sort_desc (l : list ste) : list ste := fold_right insert_desc [] l.
 
 (* IterateUnbatchedSendToExternals: reverse iteration over the chain prefix *)
 Definition pool_of_chain (chain : bytes) (l : list ste) : list ste :=
-  rev (filter (fun e => is_prefix chain (pool_key e)) l).
+  sort_desc (filter (fun e => is_prefix chain (pool_key e)) l).
 
 (* iterateUnbatchedSendToExternalsByCoin: reverse iteration over chain|token prefix, skipping
    entries of other tokens (fix: batch only transfers of the requested token) *)
 Definition pool_of_coin (chain ext : bytes) (l : list ste) : list ste :=
   filter (fun e => beqb (s_ext e) ext)
-         (rev (filter (fun e => is_prefix (chain ++ ext) (pool_key e)) l)).
+         (sort_desc (filter (fun e => is_prefix (chain ++ ext) (pool_key e)) l)).
 
 (* ---------- bank ---------- *)
 Definition bal_key (acct denom : bytes) : bytes := acct ++ 256%N :: denom.
